@@ -32,11 +32,12 @@ def run(chk, repo):
     chk.rule("C18-E4", "handlers on the open path that do not re-raise only cover the cache lookup or collect errors that are raised later", 2)
     chk.rule("C18-E5", "leader / volume directory / image descriptor structs consist of definite-width fields", 3)
     chk.attempt(e1, chk, op)
-    chk.attempt(e2, chk, op)
-    chk.attempt(e3, chk, op)
+    tie = chk.attempt(e3, chk, op)
+    chk.attempt(trace_truncation, chk, op, bool(tie))
+    chk.attempt(e2, chk, op, covered_by="trace_truncation")
     chk.attempt(e4, chk, op)
     chk.rule("C18-E6", "every loop on the open path is bounded: for-loops over finite collections; a while-loop makes progress in every iteration or leaves on a short/empty read", 0)
-    chk.attempt(e6, chk, op)
+    chk.attempt(e6, chk, op, covered_by="trace_truncation")
     from ..layout import UnmodelledConstruct
     L = Layouts(repo)
     SWALLOWING = {"Optional", "Select", "GreedyRange", "GreedyBytes", "GreedyString", "Peek", "RepeatUntil", "Default", "NullTerminated", "CString", "StopIf", "IfThenElse", "If", "Switch", "LazyStruct", "Lazy"}
@@ -176,7 +177,7 @@ def e3(chk, op):
     if nvars == 0:
         raise AnalysisError("no per-line variable found by shape inference")
     consed = next(iter(first_dims)) if len(first_dims) == 1 else sorted(map(str, first_dims))
-    chk.require(dims is not None and len(first_dims) == 1 and dims[0] == consed, "C18-E3", op.where(oi),
+    tie = chk.require(dims is not None and len(first_dims) == 1 and dims[0] == consed, "C18-E3", op.where(oi),
                 f"image variable dims {dims} and the first dimension {consed!r} of all {nvars} per-line variables tie the header line count to the number of parsed records",
                 f"image variable dims {dims} vs per-line dimension {consed!r}: a short read no longer conflicts with the declared shape", key="rows-tie",
                 sample={"image dims": dims, "per-line dim": consed})
@@ -188,6 +189,13 @@ def e3(chk, op):
     ok = any(isinstance(c.func, ast.Name) and c.func.id == "transform_line_metadata" and c.args and norm(c.args[0]) == "metadata" for c in calls_in(tm))
     chk.require(ok, "C18-E3", f"{md.relpath}:transform_metadata", "per-line variables are built from the full list of parsed records",
                 "per-line variables are not built from the parsed records list", key="lines-from-records")
+    return bool(tie)
+
+
+def trace_truncation(chk, op, rows_tie):
+    """C18-E7: the metadata pass evaluated on truncated model image files (every cut point): it raises and terminates"""
+    from .trace_rules import truncation_rules
+    truncation_rules(chk, op.repo, "C18-E7", rows_tie, thorough=chk.tier == "thorough")
 
 
 def e4(chk, op):
